@@ -164,10 +164,15 @@ func TestC02_PoolMembership(t *testing.T) {
 			clock.Freeze(time.Date(2026, 5, 1, 0, 0, 0, 0, time.UTC))
 			defer clock.Unfreeze()
 		}
+		var seenFull string
+		mainKeyPtr := &seenKey
 		mkHandler := func(invoked *int, seenKey *string) http.Handler {
 			return http.HandlerFunc(func(w http.ResponseWriter, r *http.Request) {
 				*invoked++
 				*seenKey = key(r.URL)
+				if seenKey == mainKeyPtr {
+					seenFull = r.URL.String()
+				}
 				switch mutate {
 				case 1:
 					r.URL.Path = "/mutated"
@@ -193,8 +198,14 @@ func TestC02_PoolMembership(t *testing.T) {
 		var rbOpts []roundrobin.RebalancerOption
 		// the affinity cookie carries the server URL itself or (a share of the cases) its salted hash
 		var cookieCodec stickycookie.CookieValue = &stickycookie.RawValue{}
-		if sticky && rapid.IntRange(0, 2).Draw(t, "hashedCookie") == 0 {
+		switch {
+		case !sticky:
+		case rapid.IntRange(0, 2).Draw(t, "hashedCookie") == 0:
 			cookieCodec = &stickycookie.HashValue{Salt: rapid.SampledFrom([]string{"", "pepper"}).Draw(t, "salt")}
+		case rapid.IntRange(0, 2).Draw(t, "sealedCookie") == 0:
+			if v, err := stickycookie.NewAESValue([]byte("0123456789abcdef"), 0); err == nil {
+				cookieCodec = v
+			}
 		}
 		if sticky {
 			rrOpts = append(rrOpts, roundrobin.EnableStickySession(roundrobin.NewStickySession("sid").SetCookieValue(cookieCodec)))
@@ -352,6 +363,9 @@ func TestC02_PoolMembership(t *testing.T) {
 			i := m.find(seenKey)
 			if i < 0 {
 				t.Fatalf("request forwarded to %s which is not in the pool %v (cookie %q)\nhistory: %s", seenKey, m.keys(), cookie, strings.Join(log, "; "))
+			}
+			if seenFull != m.es[i].spell {
+				t.Fatalf("request forwarded to %s; the member at that address is registered as %s (cookie %q): that URL is not in the pool\nhistory: %s", seenFull, m.es[i].spell, cookie, strings.Join(log, "; "))
 			}
 			if !stuck && m.es[i].w <= 0 {
 				t.Fatalf("request forwarded to zero-weight server %s (pool %v)\nhistory: %s", seenKey, m.es, strings.Join(log, "; "))
